@@ -97,13 +97,18 @@ class ErrDomain:
         if isinstance(e, EV):
             c = e.v.const_value()
             if c is None:
-                raise AnalysisError("rounding analysis: non-literal exponent")
+                # a ** b = exp(b ln a):  relative error |b| e_a + |b ln a| e_b + 1
+                r = A.pow(a.v, e.v)
+                return EV(r, A.add(A.add(A.mul(A.abs(e.v), a.e), A.mul(A.abs(A.mul(e.v, self._log(a.v))), e.e)), self.one))
             e = c
         e = Fraction(e)
         r = A.pow(a.v, e)
         if e == 1:
             return EV(r, a.e)
         return EV(r, A.add(A.mul(A.const(abs(e)), a.e), self.one))
+
+    def _log(self, v):
+        return self.alg.opaque("log", [v])
 
     def func1(self, fn, a):
         A = self.alg
@@ -113,6 +118,21 @@ class ErrDomain:
             return EV(A.signfn(a.v), self.zero)
         if fn == "sqrt":
             return EV(A.sqrt(a.v), A.add(A.div(a.e, A.const(2)), self.one))
+        if fn == "log":
+            # y = ln a: the RELATIVE error of a is the ABSOLUTE error of y
+            r = self._log(a.v)
+            return EV(r, A.add(A.div(a.e, A.abs(r)), self.one))
+        if fn == "log1p":
+            # y = ln(1 + a): dy = a e_a / (1 + a) -- near a = -1 (log1p(x - 1) for small x) the rounding of `a` is all there is
+            s = A.add(self.one, a.v)
+            r = self._log(s)
+            return EV(r, A.add(A.div(A.mul(A.abs(a.v), a.e), A.mul(A.abs(s), A.abs(r))), self.one))
+        if fn == "exp":
+            return EV(A.opaque("exp", [a.v], positive=True), A.add(A.mul(A.abs(a.v), a.e), self.one))
+        if fn == "expm1":
+            ex = A.opaque("exp", [a.v], positive=True)
+            r = A.sub(ex, self.one)
+            return EV(r, A.add(A.div(A.mul(A.mul(A.abs(a.v), ex), a.e), A.abs(r)), self.one))
         raise AnalysisError("rounding analysis: unsupported function %s" % fn)
 
     def func2(self, fn, a, b):
